@@ -41,6 +41,9 @@ type input struct {
 	Lines   [][]byte `json:"lines,omitempty"`
 	Q       []string `json:"q,omitempty"` // the lines Go-quoted, for readers only
 	Files   []File   `json:"files,omitempty"`
+	// layout cases only: also put the FIRST Doc/Comment questions on freshly loaded copies of the package from
+	// several goroutines at once, in a supervised child (conc.go)
+	Conc *ConcSpec `json:"conc,omitempty"`
 }
 
 func tagsInput(markers string, lines ...string) json.RawMessage {
@@ -55,6 +58,11 @@ func tagsInput(markers string, lines ...string) json.RawMessage {
 
 func layoutInput(files ...File) json.RawMessage {
 	b, _ := json.Marshal(input{Kind: "layout", Files: files})
+	return b
+}
+
+func concLayoutInput(conc *ConcSpec, files ...File) json.RawMessage {
+	b, _ := json.Marshal(input{Kind: "layout", Files: files, Conc: conc})
 	return b
 }
 
@@ -83,6 +91,7 @@ type obsLayout struct {
 	Source []string  `json:"source"`
 	Names  []obsName `json:"names"`
 	Err    string    `json:"err,omitempty"`
+	Conc   *concOut  `json:"concurrent_first_queries,omitempty"`
 }
 
 func coqLines(ls []string) string {
@@ -534,6 +543,45 @@ func runLayout(inp *input, scratch string) core.Result {
 		}
 	}
 	stats["repeated_calls"] = len(handed) > 0
+	// the first questions on a freshly loaded package, from several goroutines at once (conc.go): an answer that
+	// differs from the one a single caller gets is one more observed query, judged by the same predicate
+	if inp.Conc != nil && len(queries) > 0 {
+		co, died, note := concPass(inp.Conc, sources, scratch)
+		switch {
+		case note != "":
+			res.Notes = append(res.Notes, note)
+		case died != "":
+			stats["concurrent_first_queries"] = true
+			res.GoViolations = append(res.GoViolations, fmt.Sprintf("Doc/Comment: the process died while %d goroutines put the first Doc/Comment questions on a freshly loaded package (no call returned the lines of the comment group): %s", inp.Conc.G, died))
+			obs.Conc = &concOut{Err: died}
+		case co.Err != "":
+			res.Notes = append(res.Notes, "concurrency pass: "+co.Err)
+			obs.Conc = &co
+		default:
+			stats["concurrent_first_queries"] = true
+			obs.Conc = &co
+			for _, b := range co.Bad {
+				res.GoViolations = append(res.GoViolations, fmt.Sprintf("%s at %s:%d asked among the first questions on a freshly loaded package by %d goroutines at once: goroutine %d (copy %d) got %s; a single caller gets %s (%d of %d concurrent answers differ)",
+					b.Name, b.File, b.Line, co.Goroutines, b.Goroutine, b.Copy, b.Got.show(), b.Want.show(), co.Wrong, co.Calls))
+				if b.Got.Panic != "" {
+					continue
+				}
+				fi := vf.lookup(b.File)
+				for _, first := range obs.Names {
+					if first.Name == b.Name && first.File == fi && first.Line == b.Line {
+						again := first
+						again.Name = fmt.Sprintf("%s (first question, goroutine %d of %d, copy %d)", b.Name, b.Goroutine, co.Goroutines, b.Copy)
+						again.Tags, again.Doc, again.Comment = b.Got.Tags, b.Got.Doc, b.Got.Comment
+						if queryTerm(again) != queryTerm(first) {
+							obs.Names = append(obs.Names, again)
+							qterms = append(qterms, queryTerm(again))
+						}
+						break
+					}
+				}
+			}
+		}
+	}
 	res.Observed = obs
 	var leadTerms []string
 	for _, g := range leads {
